@@ -91,7 +91,18 @@ def replay_layout(pyhf, backend, precision, chunk, seed):
         if case["poi_fixed"]:
             fixed = list(fixed)
             fixed[cfg.poi_index] = True
-        kw = dict(test_stat=kind, calctype=calc, fixed_params=fixed, **flags)
+        # the caller's own init / bounds / mask (not the model's suggestions): every other case pins one nuisance parameter and
+        # narrows one bound; every fit of the test has to run under exactly these
+        init, bounds = list(cfg.suggested_init()), [list(b) for b in cfg.suggested_bounds()]
+        fixed = list(fixed)
+        if ci % 2 and cfg.poi_index is not None:
+            nuis = [i for i in range(cfg.npars) if i != cfg.poi_index]
+            j = nuis[ci % len(nuis)]
+            init[j], fixed[j] = 1.03, True
+            k2 = nuis[(ci + 1) % len(nuis)]
+            bounds[k2] = [bounds[k2][0], bounds[k2][1] - 0.5]
+        held = [[i, float(init[i])] for i in range(cfg.npars) if fixed[i] and i != cfg.poi_index]
+        kw = dict(test_stat=kind, calctype=calc, init_pars=init, par_bounds=bounds, fixed_params=fixed, **flags)
         if calc == "toybased":
             kw["ntoys"] = ntoys
             kw["track_progress"] = False
@@ -134,7 +145,8 @@ def replay_layout(pyhf, backend, precision, chunk, seed):
             pass
         call = {"ev": "ht.call", "kind": kind, "calc": calc, "ntoys": ntoys, "mu": L(mu), "poi": cfg.poi_index,
                 "obs": [L(x) for x in data], "asimov": [L(x) for x in asimov], "sig": [[L(x) for x in r] for r in sig],
-                "bkg": [[L(x) for x in r] for r in bkg], "tail": case["tail"], "exp": case["exp"], "expset": case["expset"], "calcflag": case["calcflag"]}
+                "bkg": [[L(x) for x in r] for r in bkg], "tail": case["tail"], "exp": case["exp"], "expset": case["expset"], "calcflag": case["calcflag"],
+                "held": [[i, L(v)] for i, v in held], "bounds": [[L(a), L(b)] for a, b in bounds]}
         out["traces"].append({"id": 0, "label": f"{kind}/{calc}/{tags[-1]}", "events": [call] + evs + [{"ev": "ht.return", "layout": codes}]})
         # Binding A: identity of the entries with the calculator's own values (same seed => same toys)
         np.random.seed(sd)
